@@ -79,6 +79,13 @@ def run(ctx: Ctx):
     d.mkdir()
     static_path = str(d / "m1.xyz")
     write_xyz(static_path, "O", [(0, 0, 12), (76, 0, -47), (-76, 0, -47)])
+    # the first molecule varies too: water-shaped, a single atom (an ion), a non-planar one
+    statics = [("O", [(0, 0, 12), (76, 0, -47), (-76, 0, -47)]), ("N", [(0, 0, 0)]), ("S", [(200, 0, 0), (-100, 150, 0), (-50, -100, 120), (-50, -50, -120)])]
+    static_of = {}
+    for i, name in enumerate(MOLS):
+        sp = str(d / f"m1_{i % 3}.xyz")
+        write_xyz(sp, *statics[i % 3])
+        static_of[name] = (sp, statics[i % 3][0])
     cases, meta = [], []
     for name, (el, coords) in MOLS.items():
         rows = []
@@ -88,6 +95,10 @@ def run(ctx: Ctx):
             q = [x * rng.choice([-1, 1]) for x in q]
             p = [rng.randrange(-900, 900) for _ in range(3)]
             rows.append(dict(p=p, q=q))
+        # a scan may return to an earlier pose: exactly repeated rows (adjacent and far apart) are rows like any other
+        rows[5] = dict(rows[2])
+        rows[6] = dict(rows[5])
+        rows[-1] = dict(rows[0])
         cases.append(dict(ref=[list(c) for c in coords], rows=rows))
         meta.append((name, el, coords, rows))
     expect = ctx.evaluate("Rigid_Eval", cases, name="rigid")
@@ -99,7 +110,7 @@ def run(ctx: Ctx):
         key0 = f"Pseudotrajectory(molecule={name})"
         try:
             with quiet():
-                m1 = OneMoleculeReader(static_path).get_molecule()
+                m1 = OneMoleculeReader(static_of[name][0]).get_molecule()
                 m2 = OneMoleculeReader(path).get_molecule()
                 ref1 = m1.atoms.positions.copy()
                 pt = Pseudotrajectory(m1, m2, arr)
@@ -115,7 +126,7 @@ def run(ctx: Ctx):
         bad = None
         if frames.shape != (len(rows), n1 + n2, 3):
             bad = f"frame array shape {frames.shape}, expected {(len(rows), n1 + n2, 3)}"
-        elif names != ["O"] * n1 + [el] * n2:
+        elif names != [static_of[name][1]] * n1 + [el] * n2:
             bad = f"atom order / names {names}"
         else:
             for k, (fr, ex) in enumerate(zip(frames, exp)):
